@@ -40,7 +40,11 @@ class CSVFormat(FileFormat):
     PYTHON_DIALECT = {
         'number': {
             'decimalChar': '.',
-            'groupChar': ''
+            'groupChar': '',
+            'bareNumber': True
+        },
+        'integer': {
+            'bareNumber': True
         },
         'date': {
             'format': DATE_P_FORMAT
